@@ -76,12 +76,21 @@ class _randobj:
                     
                 # Call the user's constructor
                 ro_i.ctor_level += 1
-                super().__init__(*args, **kwargs)
-                ro_i.ctor_level -= 1
+                try:
+                    super().__init__(*args, **kwargs)
+                except:
+                    # Leave the shared construction state as it was found
+                    if ro_i.ctor_level == 1:
+                        pop_srcinfo_mode()
+                    raise
+                finally:
+                    ro_i.ctor_level -= 1
                 
                 if ro_i.ctor_level == 0:
-                    self.build_field_model(None)
-                    pop_srcinfo_mode()
+                    try:
+                        self.build_field_model(None)
+                    finally:
+                        pop_srcinfo_mode()
             
         # Add the interposer class
         ret = type(T.__name__, (randobj_interposer,), dict())
@@ -222,6 +231,11 @@ class _randobj:
                                         fo.c(self)
                                     except Exception as e:
                                         print("Exception while processing constraint: " + str(e))
+                                        # Don't leave the block being recorded, and
+                                        # the expressions of its unfinished statement,
+                                        # on the shared stacks
+                                        pop_constraint_scope()
+                                        clear_exprs()
                                         raise e
                                     fo.set_model(pop_constraint_scope())
                                     model.add_constraint(fo.model)
@@ -235,6 +249,11 @@ class _randobj:
                                         fo.c(self)
                                     except Exception as e:
                                         print("Exception while processing constraint: " + str(e))
+                                        # Don't leave the block being recorded, and
+                                        # the expressions of its unfinished statement,
+                                        # on the shared stacks
+                                        pop_constraint_scope()
+                                        clear_exprs()
                                         raise e
                                     fo.set_model(pop_constraint_scope())
                                     fo.model.is_dynamic = True
